@@ -22,8 +22,8 @@ func Spec_DefaultParams() *CriteriaBounding {
 }
 
 func Spec_FromParams(params *interface{}) *CriteriaBounding {
-	bounding := DefaultParams()
-	utils.DecodeToStruct(*params, bounding)
+	bounding := Spec_DefaultParams()
+	utils.Spec_DecodeToStruct(*params, bounding)
 	if bounding.AllowedValuesRangeScaling == 0 {
 		panic(fmt.Errorf("allowedValuesRangeScaling cannot be 0"))
 	}
@@ -33,7 +33,7 @@ func Spec_FromParams(params *interface{}) *CriteriaBounding {
 func (b *CriteriaBounding) Spec_WithRange(valueRange *utils.ValueRange) *CriteriaInRangeBounding {
 	var scaled *utils.ValueRange = nil
 	if b.AllowedValuesRangeScaling > 0 {
-		scaled = scaleRange(valueRange, b.AllowedValuesRangeScaling)
+		scaled = Spec_scaleRange(valueRange, b.AllowedValuesRangeScaling)
 	}
 	return &CriteriaInRangeBounding{
 		bounding:   b,
@@ -42,16 +42,16 @@ func (b *CriteriaBounding) Spec_WithRange(valueRange *utils.ValueRange) *Criteri
 }
 
 func (b *CriteriaInRangeBounding) Spec_BoundValue(value float64) float64 {
-	value = b.bounding.trimBelowZeroIfRequired(value)
+	value = b.bounding.Spec_trimBelowZeroIfRequired(value)
 	if b.valueRange == nil {
 		return value
 	}
-	return boundValueInRange(value, b.valueRange)
+	return Spec_boundValueInRange(value, b.valueRange)
 }
 
 func (b *CriteriaBounding) Spec_BoundValue(value float64, valueRange *utils.ValueRange) float64 {
-	value = b.trimBelowZeroIfRequired(value)
-	return boundValue(value, b.AllowedValuesRangeScaling, valueRange)
+	value = b.Spec_trimBelowZeroIfRequired(value)
+	return Spec_boundValue(value, b.AllowedValuesRangeScaling, valueRange)
 }
 
 func (b *CriteriaBounding) Spec_trimBelowZeroIfRequired(value float64) float64 {
@@ -63,8 +63,8 @@ func (b *CriteriaBounding) Spec_trimBelowZeroIfRequired(value float64) float64 {
 
 func Spec_boundValue(value, scaling float64, valueRange *utils.ValueRange) float64 {
 	if scaling > 0 {
-		scaledRange := scaleRange(valueRange, scaling)
-		return boundValueInRange(value, scaledRange)
+		scaledRange := Spec_scaleRange(valueRange, scaling)
+		return Spec_boundValueInRange(value, scaledRange)
 	}
 	return value
 }
@@ -83,6 +83,6 @@ func Spec_scaleRange(valueRange *utils.ValueRange, scaling float64) *utils.Value
 	if scaling == 1 {
 		return valueRange
 	} else {
-		return valueRange.ScaleEqually(scaling)
+		return valueRange.Spec_ScaleEqually(scaling)
 	}
 }
